@@ -527,3 +527,104 @@ func rcfCaseFolding(w *World) {
 		w.info("case-fold|stale:"+k, token.NoPos, "reviewed entry no longer matches any call site")
 	}
 }
+
+// RNC2 (C20): an integer literal reaches a float field with a single rounding. protoc converts an
+// integer option literal to a `float` field directly (one rounding to the nearest float32).
+// Converting through float64 first rounds twice: an integer above 2^53 that lies just below the
+// midpoint of two adjacent float32 values is first rounded up to the midpoint and then, by
+// ties-to-even, to the wrong neighbour. In package options every float32(x) conversion whose
+// operand can hold a value produced by float64(<integer>) is a violation (reaching assignments are
+// traced within the function).
+func rnc2SingleRounding(w *World) {
+	w.rule("RNC2")
+	p := w.pkg("options")
+	if p == nil {
+		return
+	}
+	info := p.TypesInfo
+	isInt := func(t types.Type) bool {
+		bt, ok := t.Underlying().(*types.Basic)
+		return ok && bt.Info()&types.IsInteger != 0
+	}
+	isConvTo := func(c *ast.CallExpr, kind types.BasicKind) bool {
+		if len(c.Args) != 1 {
+			return false
+		}
+		tv, ok := info.Types[c.Fun]
+		if !ok || !tv.IsType() {
+			return false
+		}
+		bt, ok := tv.Type.Underlying().(*types.Basic)
+		return ok && bt.Kind() == kind
+	}
+	n := 0
+	for _, b := range allFuncBodies(p) {
+		if b.Lit != nil {
+			continue
+		}
+		// assignments per object
+		assigns := map[types.Object][]ast.Expr{}
+		ast.Inspect(b.Body, func(x ast.Node) bool {
+			as, ok := x.(*ast.AssignStmt)
+			if !ok || len(as.Lhs) != len(as.Rhs) {
+				return true
+			}
+			for i, l := range as.Lhs {
+				if id, ok := l.(*ast.Ident); ok {
+					o := info.Defs[id]
+					if o == nil {
+						o = info.Uses[id]
+					}
+					if o != nil {
+						assigns[o] = append(assigns[o], as.Rhs[i])
+					}
+				}
+			}
+			return true
+		})
+		ast.Inspect(b.Body, func(x ast.Node) bool {
+			c, ok := x.(*ast.CallExpr)
+			if !ok || !isConvTo(c, types.Float32) {
+				return true
+			}
+			n++
+			key := "single-rounding|" + b.Label + "|" + types.ExprString(c)
+			arg := ast.Unparen(c.Args[0])
+			if t := info.TypeOf(arg); t != nil && isInt(t) {
+				w.ok(key, c.Pos(), "integer converted to float32 directly (one rounding)")
+				return true
+			}
+			viaF64 := ""
+			var seen = map[types.Object]bool{}
+			var trace func(e ast.Expr, depth int)
+			trace = func(e ast.Expr, depth int) {
+				e = ast.Unparen(e)
+				switch y := e.(type) {
+				case *ast.CallExpr:
+					if isConvTo(y, types.Float64) {
+						if t := info.TypeOf(y.Args[0]); t != nil && isInt(t) {
+							viaF64 = types.ExprString(y)
+						}
+					}
+				case *ast.Ident:
+					o := info.Uses[y]
+					if o == nil || seen[o] || depth > 4 {
+						return
+					}
+					seen[o] = true
+					for _, r := range assigns[o] {
+						trace(r, depth+1)
+					}
+				}
+			}
+			trace(arg, 0)
+			if viaF64 == "" {
+				w.ok(key, c.Pos(), "the operand does not come from an integer widened to float64")
+			} else {
+				w.violation(key, c.Pos(), "the operand of "+types.ExprString(c)+" can hold "+viaF64+": an integer literal on a float field is rounded twice (to float64, then to float32), which differs from protoc's single rounding for integers above 2^53 just below a float32 midpoint")
+			}
+			return true
+		})
+	}
+	w.floor("float32 conversions in package options", n, 3)
+}
